@@ -6,6 +6,7 @@ of exactly that proposition appears below.
 import ZV.Model.SourceGraph
 import ZV.Model.SourceGraphSpec
 import ZV.Props.C09Statements
+import ZV.Proofs.SourceGraph
 
 namespace ZV.Props.C09
 open ZV.SourceGraph
@@ -15,5 +16,20 @@ theorem dependencies_order (g : Graph) (sid : Nat) (n : Node) (h : g.sources[sid
     g.dependencies sid =
       (match n.signature with | some s => [Dep.signature sid s] | none => []) ++ n.imports.map Dep.import := by
   simp only [Graph.dependencies, h]; cases n.signature <;> rfl
+
+/-- Reported cycles are real: the steps are dependency edges of the graph forming a closed walk. -/
+theorem cycle_sound : Statement.cycle_sound := ZV.SourceGraph.cycle_sound_pf
+
+/-- Nothing reported means no cycle is reachable from the root. -/
+theorem cycle_complete : Statement.cycle_complete := ZV.SourceGraph.cycle_complete_pf
+
+/-- On an acyclic graph the provider order lists every reachable file once, providers first. -/
+theorem provider_order_topo : Statement.provider_order_topo := ZV.SourceGraph.provider_order_topo_pf
+
+/-- Loading fails only on a missing import, never for lack of fuel. -/
+theorem load_total : Statement.load_total := ZV.SourceGraph.load_total_pf
+
+/-- Loading deduplicates by canonical identity and records exactly the edges the files declare. -/
+theorem load_spec : Statement.load_spec := ZV.SourceGraph.load_spec_pf
 
 end ZV.Props.C09
